@@ -1024,6 +1024,17 @@ impl IoUring {
     }
 }
 
+#[cfg(tiny_std_verif)]
+impl IoUring {
+    /// Verification hook: start the application's private submission position at `v`.
+    /// The kernel-shared counters can be preset by whoever owns the ring memory, these
+    /// private copies cannot.
+    pub fn verif_set_sq_position(&mut self, v: u32) {
+        self.submission_queue.head = v;
+        self.submission_queue.tail = v;
+    }
+}
+
 impl Drop for IoUring {
     #[expect(clippy::let_underscore_untyped)]
     fn drop(&mut self) {
